@@ -232,7 +232,7 @@ impl<W: WorldOps> Engine<W> {
                     uids.push(m.dead_all[rng.below(m.dead_all.len())]);
                 }
                 let nd = m.directs.len();
-                for _ in 0..n.min(nd) {
+                for _ in 0..n.max(1).min(nd) {
                     dis.push(nd - 1 - rng.below(nd.min(64)));
                 }
                 for _ in 0..2.min(nd) {
@@ -247,9 +247,12 @@ impl<W: WorldOps> Engine<W> {
         dis.dedup();
         self.rep.add("probe.handles", uids.len() as u64);
         self.rep.add("probe.directs", dis.len() as u64);
+        let sub = self.prof.api_subset.min(N_LOOKUPS);
         for uid in uids {
             for kind in 0..2 {
-                for api in 0..N_LOOKUPS {
+                let start = if sub < N_LOOKUPS { self.rng.below(N_LOOKUPS) } else { 0 };
+                for j in 0..sub {
+                    let api = (start + j * 4) % N_LOOKUPS;
                     self.check_slot_lookup(wi, uid, kind, api, pc);
                     if self.rep.failed() {
                         return;
@@ -259,7 +262,9 @@ impl<W: WorldOps> Engine<W> {
         }
         for di in dis {
             for kind in 2..4 {
-                for api in 0..N_LOOKUPS {
+                let start = if sub < N_LOOKUPS { self.rng.below(N_LOOKUPS) } else { 0 };
+                for j in 0..sub {
+                    let api = (start + j * 4) % N_LOOKUPS;
                     self.check_direct_lookup(wi, di, kind, api, pc);
                     if self.rep.failed() {
                         return;
